@@ -173,6 +173,14 @@ def run(tier, seed):
                 text = yaml.safe_dump(rcfg).replace("ROPLACEHOLDER", "{{ ro }}").replace("CACHEPLACEHOLDER", "{{ cache }}")
                 with open(os.path.join(cfgdir, "r%d.yaml" % n), "w") as f:
                     f.write(text)
+                # the same (unchanged) template file is first loaded with OTHER parameters: what a file yields is a function of
+                # the file and of the parameters it is rendered with
+                try:
+                    ConfigurationRepository.from_file(os.path.join(cfgdir, "r%d.yaml" % n), root=os.path.join(cfgdir, "decoy-root"),
+                                                      ro=(not file_o["ro"]) if file_o.get("ro") is not None else True,
+                                                      cache=(file_o["cache"] + 1) if file_o.get("cache") is not None else 7)
+                except Exception:
+                    pass
                 repo = ConfigurationRepository.from_file(os.path.join(cfgdir, "r%d.yaml" % n), root=os.path.dirname(paths.p[1]), ro=file_o.get("ro"), cache=file_o.get("cache"))
             else:
                 repo = ConfigurationRepository.from_file(os.path.join(cfgdir, "r%d.json" % n))
